@@ -2,15 +2,18 @@
 (* Test-table generator.  TLC evaluates invariants on every initial state (also
    in -simulate mode), so the invariant Emit prints one "BEH {json}" line for every
    fact combination: the Init event carrying the facts and the Decide event
-   carrying the decision both real paths must return.  The random walks of
-   -simulate add nothing (Decide is the only step) and print nothing. *)
+   carrying the decision both real paths must return (and, for a command that
+   shares its SendBatch call with its mate, the mate's decision).  The random walks
+   of -simulate add nothing (Decide is the only step) and print nothing. *)
 EXTENDS SendPermission, Json
 CONSTANT Depth
 
+\* Aimed: the fact combinations of the module already give a command a mate (same sender,
+\* same channel, other device kind, either order) exactly where the device matters.
 SimInit == Init
 SimNext == Next
 Row == [steps |-> << [ev |-> ev, st |-> Proj],
-                     [ev |-> [a |-> "Decide", res |-> [send |-> Decision(f), batch |-> Decision(f)]],
+                     [ev |-> [a |-> "Decide", res |-> Result(f)],
                       st |-> [decided |-> TRUE]] >>]
 Emit == ~done => PrintT("BEH " \o ToJson(Row))
 ===============================================================================
